@@ -63,19 +63,31 @@ PROBLEMS = {
     'dahlquist_expl': dict(cls=testequation0d, params={'lambdas': np.array([-1.0 + 0.5j, -0.3, 0.2j]), 'u0': 1.0}, sweeper=explicit),
     'imex': dict(cls=test_equation_IMEX, params={'lambdas_implicit': np.array([-2.0, -0.5 + 1j]), 'lambdas_explicit': np.array([0.3j, -0.1]), 'u0': 1.0}, sweeper=imex_1st_order),
     'heat': dict(cls=heatNd_unforced, params={'nvars': 8, 'nu': 0.1, 'freq': 2, 'bc': 'periodic'}, sweeper=generic_implicit),
+    'vdp': dict(cls=None, params={'mu': 2.0, 'newton_tol': 1e-12, 'newton_maxiter': 50, 'u0': np.array([2.0, 0.0])}, sweeper=generic_implicit),
 }
 
 
 def operator_of(name, prob):
-    """dense matrix A with F(u) = A u, assembled independently of the problem's eval_f."""
+    """(F, lip): right-hand side F(U) for an array U of node values (rows), written independently of the problem's
+    eval_f, and a Lipschitz-type magnitude for the rounding tolerance."""
     if name.startswith('dahlquist'):
-        return np.diag(PROBLEMS[name]['params']['lambdas'])
-    if name == 'imex':
-        return np.diag(PROBLEMS[name]['params']['lambdas_implicit'] + PROBLEMS[name]['params']['lambdas_explicit'])
-    if name == 'heat':
+        A = np.diag(PROBLEMS[name]['params']['lambdas'])
+    elif name == 'imex':
+        A = np.diag(PROBLEMS[name]['params']['lambdas_implicit'] + PROBLEMS[name]['params']['lambdas_explicit'])
+    elif name == 'heat':
         n = prob.nvars[0] if hasattr(prob.nvars, '__len__') else prob.nvars
-        return heat_matrix(n, PROBLEMS[name]['params']['nu'])
-    raise KeyError(name)
+        A = heat_matrix(n, PROBLEMS[name]['params']['nu'])
+    elif name == 'vdp':
+        mu = PROBLEMS[name]['params']['mu']
+
+        def F(U):
+            # van der Pol: u1' = u2, u2' = mu (1 - u1^2) u2 - u1
+            return np.stack([U[:, 1], mu * (1.0 - U[:, 0] ** 2) * U[:, 1] - U[:, 0]], axis=1)
+
+        return F, 20.0 * mu
+    else:
+        raise KeyError(name)
+    return (lambda U, A=A: U @ A.T), float(np.linalg.norm(A, np.inf))
 
 
 # ------------------------------------------------------------------------------------------------------------
@@ -93,11 +105,11 @@ class DefectRecorder(Hooks):
         for L in levels:
             if L.status.residual is None or any(u is None for u in L.u) or L.level_index not in rec['ops']:
                 continue
-            A = rec['ops'][L.level_index]
+            Ffun, lip = rec['ops'][L.level_index]
             Q = rec['Q'][L.level_index]
             M = L.sweep.coll.num_nodes
             U = np.array([np.asarray(L.u[m]).ravel() for m in range(M + 1)])
-            F = U @ A.T
+            F = Ffun(U)
             dt = L.dt
             norms = []
             scale = 0.0
@@ -116,7 +128,7 @@ class DefectRecorder(Hooks):
                 ref = ref / den
                 scale = scale / den
             got = L.status.residual
-            tol = 200 * np.finfo(float).eps * scale * max(1.0, np.linalg.norm(A, np.inf) * dt) + 1e-300
+            tol = 200 * np.finfo(float).eps * scale * max(1.0, lip * dt) + 1e-300
             err = abs(got - ref)
             rec['n'] += 1
             rec['worst'] = max(rec['worst'], err / tol)
@@ -138,7 +150,7 @@ class DefectRecorder(Hooks):
 
 
 DIMS = {
-    'problem': ['dahlquist', 'imex', 'heat', 'dahlquist_expl'],
+    'problem': ['dahlquist', 'imex', 'heat', 'dahlquist_expl', 'vdp'],
     'residual_type': ['full_abs', 'last_abs', 'full_rel', 'last_rel'],
     'P': [1, 2, 3],
     'L': [1, 2, 3],
@@ -187,7 +199,11 @@ def legal(c):
 
 def run_case(c):
     global REC
-    spec = PROBLEMS[c['problem']]
+    spec = dict(PROBLEMS[c['problem']])
+    if spec['cls'] is None:
+        from pySDC.implementations.problem_classes.Van_der_Pol_implicit import vanderpol
+
+        spec['cls'] = vanderpol
     L = c['L']
     nodes = [c['M'] - i for i in range(L)]
     sweeper_params = {'quad_type': c['quad_type'], 'num_nodes': nodes if L > 1 else nodes[0], 'initial_guess': c['initial_guess']}
@@ -220,6 +236,7 @@ def run_case(c):
     try:
         ctrl = controller_nonMPI(num_procs=c['P'], controller_params=cp, description=description)
     except Exception as e:  # construction problems are C20's business; count them
+        rec.pop('ops', None), rec.pop('Q', None)
         return c, 'construct:' + type(e).__name__, rec, None
     S0 = ctrl.MS[0]
     for Lv in S0.levels:
@@ -232,8 +249,10 @@ def run_case(c):
         uend, stats = ctrl.run(u0=u0, t0=0.0, Tend=c['P'] * c['dt'] * 2)
     except Exception as e:
         REC = None
+        rec.pop('ops', None), rec.pop('Q', None)
         return c, 'run:' + type(e).__name__ + ':' + str(e)[:80], rec, None
     REC = None
+    rec.pop('ops', None), rec.pop('Q', None)
     # logged records equal what the recorder saw at the same callback
     bad_log = []
     for typ, where in (('residual_post_iteration', 'post_iteration'), ('residual_post_step', 'post_step')):
@@ -302,7 +321,7 @@ def make(cfg):
 
 def run(rep, tier):
     rep.assumptions += [
-        'part A: Q from numpy polynomial integration of the Lagrange basis through the nodes the collocation object reports; operators assembled independently (diagonal lambdas, periodic 2nd-order Laplacian); imex_1st_order_mass is not covered (needs a FEniCS mass-matrix problem)',
+        'part A: Q from numpy polynomial integration of the Lagrange basis through the nodes the collocation object reports; right-hand sides written independently (diagonal lambdas, periodic 2nd-order Laplacian, van der Pol); imex_1st_order_mass is not covered (needs a FEniCS mass-matrix problem)',
         'part B: residual answers scripted on the finest level in IT_CHECK; convergence at iteration 0 is admitted where the code admits it (iter > 0 or sweep > 0, sweep being initialised to 1)',
     ]
     ncases, ndistinct = part_a(rep, tier)
